@@ -534,6 +534,10 @@ func (in *Interp) visitInstr(fr *frame, instr ssa.Instruction) continuation {
 		case array:
 			fr.env[instr] = in.indexRead([]value(x), fr.get(instr.Index))
 		case string:
+			if t, ok := fr.get(instr.Index).(*smt.Term); ok && !t.IsConst() {
+				fr.env[instr] = in.indexRead(in.bytesOfString(x), t) // ite chain over the bytes of the constant
+				break
+			}
 			i := in.indexIn(fr.get(instr.Index), len(x))
 			fr.env[instr] = in.C.BVConstU(uint64(x[i]), 8)
 		case bstr:
